@@ -558,6 +558,42 @@ func c04Errors(run *mon.Run, r *rand.Rand) {
 			check("sig-malformed", e, crypto.IsInvalidSignatureError)
 		}
 	}
+	// wrong lengths that compensate each other: the concatenation of the list is a multiple of 48 bytes
+	// (and even re-splits into valid signatures), but no entry is a signature
+	{
+		g1, _ := bsk.Sign([]byte("c1"), crypto.NewExpandMsgXOFKMAC128("c04"))
+		g2, _ := bsk.Sign([]byte("c2"), crypto.NewExpandMsgXOFKMAC128("c04"))
+		cat := append(append([]byte{}, g1...), g2...)
+		for _, cuts := range [][]int{{47}, {49}, {0}, {96}, {1}, {95}, {24, 72}, {0, 96}, {47, 49}, {40, 56}} {
+			var l []crypto.Signature
+			prev := 0
+			for _, c := range cuts {
+				l = append(l, append([]byte{}, cat[prev:c]...))
+				prev = c
+			}
+			l = append(l, append([]byte{}, cat[prev:]...))
+			if len(cuts) == 2 && cuts[0] == 47 && cuts[1] == 49 {
+				l = []crypto.Signature{cat[:47], cat[47:96], g1} // 47 + 49 + 48
+			}
+			wellFormed := true
+			for _, e := range l {
+				wellFormed = wellFormed && len(e) == 48
+			}
+			if wellFormed {
+				continue
+			}
+			var e error
+			var out crypto.Signature
+			if run.Guard("AggregateBLSSignatures(compensating lengths)", cuts, func() { out, e = crypto.AggregateBLSSignatures(l) }) {
+				continue
+			}
+			if e == nil {
+				run.Violate("C04:error-class:compensating-lengths", fmt.Sprintf("AggregateBLSSignatures of entries with lengths split at %v of two concatenated signatures returned %x without error", cuts, []byte(out)), nil)
+			} else {
+				check("compensating-lengths", e, crypto.IsInvalidSignatureError)
+			}
+		}
+	}
 	_, err = crypto.AggregateBLSPrivateKeys([]crypto.PrivateKey{bsk, ecSk})
 	check("sks-ecdsa", err, crypto.IsNotBLSKeyError)
 	_, err = crypto.AggregateBLSPublicKeys([]crypto.PublicKey{ecSk.PublicKey(), bsk.PublicKey()})
